@@ -19,29 +19,38 @@ class Violation:
     """One oracle disagreement.  fingerprint identifies the DEFECT (clause +
     reason code + crash frame), not the input."""
 
-    def __init__(self, clause, reason, what, case):
+    def __init__(self, clause, reason, what, case, resynced=False):
         self.clause = clause
         self.reason = reason
         self.what = what
         self.case = case          # JSON-able description sufficient for replay
+        self.resynced = resynced  # a recorded known finding after which the model was re-synchronised (exploration continues)
 
     @property
     def fingerprint(self):
         return '%s/%s' % (self.clause, self.reason)
 
     def to_json(self):
-        return {'clause': self.clause, 'reason': self.reason, 'what': self.what, 'case': self.case}
+        return {'clause': self.clause, 'reason': self.reason, 'what': self.what, 'case': self.case, 'resynced': self.resynced}
 
     @staticmethod
     def from_json(d):
-        return Violation(d['clause'], d['reason'], d['what'], d['case'])
+        return Violation(d['clause'], d['reason'], d['what'], d['case'], d.get('resynced', False))
+
+
+_kf_cache = None
 
 
 def load_known_findings():
-    p = os.path.join(VERIF, 'known_findings.json')
-    if not os.path.exists(p):
-        return {'findings': [], 'fixed': []}
-    return json.load(open(p))
+    global _kf_cache
+    if _kf_cache is None:
+        p = os.path.join(VERIF, 'known_findings.json')
+        _kf_cache = json.load(open(p)) if os.path.exists(p) else {'findings': [], 'fixed': []}
+    return _kf_cache
+
+
+def known_fingerprints(pid):
+    return {f['fingerprint'] for f in load_known_findings().get('findings', []) if f['property'] == pid}
 
 
 class Ctx:
